@@ -179,9 +179,23 @@ def gen_ops(rng, plan, nops, atoms=("a", "b", "c")):
     vals = [i + 1 for i, p in enumerate(plan) if p["kind"] == "v"]
     nslots = 0
     ops = []
-    for _ in range(nops):
+    while len(ops) < nops:
         r = rng.random()
-        if r < 0.4:
+        if r < 0.08 and vals:
+            # pending updates saved, flushed, restored, flushed again
+            ops += [{"ev": "set_auto", "b": False},
+                    {"ev": "assign", "n": rng.choice(vals), "x": rng.choice(atoms) + str(rng.randint(0, 2)), "via_var": False},
+                    {"ev": "save"}, {"ev": "update_all"}, {"ev": "restore", "slot": nslots + 1}, {"ev": "update_all"}]
+            nslots += 1
+        elif r < 0.16 and vals:
+            # the same target updated twice with different dirty branches
+            tgt = [rng.randint(1, len(plan))]
+            ops += [{"ev": "set_auto", "b": False},
+                    {"ev": "assign", "n": rng.choice(vals), "x": rng.choice(atoms) + str(rng.randint(0, 2)), "via_var": False},
+                    {"ev": "update_targets", "targets": tgt},
+                    {"ev": "assign", "n": rng.choice(vals), "x": rng.choice(atoms) + str(rng.randint(3, 5)), "via_var": True},
+                    {"ev": "update_targets", "targets": tgt}, {"ev": "update_all"}]
+        elif r < 0.45:
             i = rng.choice(vals)
             ops.append({"ev": "assign", "n": i, "x": rng.choice(atoms) + str(rng.randint(0, 2)),
                         "via_var": rng.random() < 0.5})
